@@ -79,6 +79,69 @@ def _eval(args):
     return res
 
 
+def _forked(work, workers):
+    """Run every work item in its own freshly forked child of this (parent) process, at most
+    `workers` at a time, yielding results as they complete.  The parent never executes panqec
+    code itself, so every case starts from the same process state (module-level caches, class
+    attributes, lru_caches empty): a case's outcome depends on the case alone, which is what
+    makes the re-execution of a violation meaningful."""
+    import pickle
+    import select
+    import signal
+    pending = list(work)[::-1]
+    active = {}                      # read fd -> [pid, idx, chunks]
+    try:
+        while pending or active:
+            while pending and len(active) < workers:
+                item = pending.pop()
+                r, w = os.pipe()
+                sys.stdout.flush()
+                pid = os.fork()
+                if pid == 0:
+                    status = 0
+                    try:
+                        os.close(r)
+                        data = pickle.dumps(_eval(item))
+                        view = memoryview(data)
+                        while view:
+                            n = os.write(w, view[:1 << 16])
+                            view = view[n:]
+                    except BaseException:
+                        status = 1
+                    finally:
+                        os._exit(status)
+                os.close(w)
+                active[r] = [pid, item[0], []]
+            ready, _, _ = select.select(list(active), [], [], 5.0)
+            for r in ready:
+                chunk = os.read(r, 1 << 20)
+                if chunk:
+                    active[r][2].append(chunk)
+                    continue
+                pid, idx, chunks = active.pop(r)
+                os.close(r)
+                os.waitpid(pid, 0)
+                try:
+                    res = pickle.loads(b''.join(chunks))
+                except Exception:
+                    res = {'idx': idx, 'evals': 0, 'wall': 0.0,
+                           'harness_error': 'worker for case %d died without a result' % idx}
+                yield res
+    finally:
+        for r, (pid, idx, chunks) in list(active.items()):
+            try:
+                os.kill(pid, signal.SIGKILL)
+                os.waitpid(pid, 0)
+                os.close(r)
+            except OSError:
+                pass
+
+
+def _eval_isolated(item):
+    for res in _forked([item], 1):
+        return res
+
+
 def load_findings(prop):
     if not os.path.exists(FINDINGS_FILE):
         return []
@@ -147,9 +210,12 @@ def run_check(prop, tier, seed, workers, budget_s=None, only=None):
     harness_errors = []
     timed_out = False
     work = [(i, cases[i]) for i in order]
-    if workers <= 1 or n_cases <= 1:
+    isolate = getattr(mod, 'ISOLATE', True)
+    pool = None
+    if isolate:
+        it = _forked(work, max(1, workers))
+    elif workers <= 1 or n_cases <= 1:
         it = map(_eval, work)
-        pool = None
     else:
         ctx = mp.get_context('fork')
         pool = ctx.Pool(min(workers, n_cases))
@@ -168,6 +234,8 @@ def run_check(prop, tier, seed, workers, budget_s=None, only=None):
         if pool is not None:
             pool.terminate()
             pool.join()
+        if isolate:
+            it.close()
 
     if harness_errors:
         i, tb = harness_errors[0]
@@ -225,7 +293,7 @@ def run_check(prop, tier, seed, workers, budget_s=None, only=None):
         seen_keys.add(ck)
         if reported >= MAX_REPORTED:
             continue
-        again = _eval((i, cases[i]))
+        again = _eval_isolated((i, cases[i])) if isolate else _eval((i, cases[i]))
         keys2 = {_canon(x['key']) for x in again.get('violations', [])}
         if ck not in keys2:
             print('HARNESS-NONDETERMINISM property=%s key=%s (violation did not reproduce on '
